@@ -48,6 +48,15 @@ def exclTags (ps : PState) (toks : List String) : List String × Bool :=
     match ps.obj v, parseIntList axes with
     | some (_, t), some ax => ((if Excl_vectorT t ax then ["F28"] else []) ++ (if Excl_shortStrides t then ["F24"] else []), false)
     | _, _ => ([], false)
+  | ["apiTranspose", v, axes] =>
+    -- the physical transposition of the `SafeT` copy (never a view, never shared)
+    match ps.obj v, parseIntList axes with
+    | some (_, t), some ax =>
+      let moves := !isVector t.ap.shape && !isScalar t.ap.shape
+      ((if t.ap.o.col && moves then ["F6"] else []) ++
+       (if Excl_vectorT t ax then ["F28"] else []) ++ (if Excl_shortStrides t then ["F24"] else []) ++
+       (if (t.win.len : Int) != totalSize t.ap.shape then ["F16"] else []), false)
+    | _, _ => ([], false)
   | ["transpose", v] =>
     match ps.obj v with
     | some (id, t) =>
@@ -135,6 +144,42 @@ def exclTags (ps : PState) (toks : List String) : List String × Bool :=
     | _ => ([], false)
   | _ => ([], false)
 
+/-- Go's `resolveAxis(axis, dims)` for `dims > 0` -/
+def resolveAxis (axis : Int) (dims : Nat) : Int :=
+  let r := Int.tmod axis dims
+  if r < 0 then r + dims else r
+
+/-- API-level steps that are, by the source, exactly another step: the package function `tensor.T` is `SafeT`,
+    `tensor.Materialize` is `Materialize`, `Narrow(dim, start, length)` is `Slice` with `dim` leading nil slices
+    and `start:start+length`. The harness calls the API function named by the step; M, S and the defect regions see
+    the step it stands for. -/
+def desugar (ps : PState) (toks : List String) : List String :=
+  match toks with
+  | ["apiT", v, axes] => ["safeT", v, axes]
+  | ["apimat", v] => ["mat", v]
+  | ["narrow", v, dim, start, len, _] =>
+    match ps.obj v, dim.toInt?, start.toInt?, len.toInt? with
+    | some (_, t), some d, some st, some ln =>
+      if t.dims == 0 then toks else
+      let d := (resolveAxis d t.dims).toNat
+      ["slice", v, String.intercalate "," (List.replicate d "n" ++ [s!"{st}:{st + ln}"])]
+    | _, _, _, _ => toks
+  | _ => toks
+
+/-- for S and the defect regions only (M has its own `roll` mirroring `RollAxis`): rolling an axis is the
+    transposition by the axes vector `rollAxes` builds -/
+def desugarRoll (ps : PState) (toks : List String) : List String :=
+  match toks with
+  | ["roll", v, axis, start, safe] =>
+    match ps.obj v, axis.toInt?, start.toInt? with
+    | some (_, t), some a, some st =>
+      (match Dense.rollAxes t.dims a st with
+      | .ok (some axes) => [if safe == "1" then "safeT" else "T", v, showInts axes]
+      | .ok none => ["T", v, showInts (rangeI t.dims)]
+      | .error _ => toks)
+    | _, _, _ => toks
+  | _ => toks
+
 /-- the object a step observes / mutates (first `$k` argument) and the object it creates -/
 def stepTarget (ps : PState) (toks : List String) : Option Nat :=
   (toks.filterMap (fun t => (ps.obj t).map (·.1))).head?
@@ -184,13 +229,15 @@ def runProgram (line : String) : List String :=
       | s :: rest, acc =>
         let toks := (s.splitOn " ").filter (· != "")
         if (toks.head?.getD "").startsWith "vset=" then go ps ss tn (i + 1) rest acc else
+        let toks := desugar ps toks
+        let toksS := desugarRoll ps toks
         let fam := families.find? (fun f => f.keys.contains (toks.head?.getD ""))
-        let (tags, bufScope) := match fam with | some f => f.excl ps toks | none => exclTags ps toks
+        let (tags, bufScope) := match fam with | some f => f.excl ps toks | none => exclTags ps toksS
         let target := stepTarget ps toks
         let (ps', mo) := match fam with | some f => f.stepM ps i toks | none => stepM ps i toks
         let so := match fam with
           | some f => f.stepS ps ps' ss i toks (mResClass mo)
-          | none => stepS ps ps' ss i toks (mResClass mo)
+          | none => stepS ps ps' ss i toksS (mResClass mo)
         let so : SOut := match so.line with
           | some _ => so
           | none => { so with s := (namedDests ps toks).foldl (fun ss id => forgetByBuf ps ss id) so.s }
